@@ -237,6 +237,10 @@ type c13Caller struct {
 	nowMs func() int64
 	// when set and true, ValidateReadTS is only called for normal reads
 	noStale *atomic.Bool
+	// percentage of ValidateReadTS calls made under a context with a very short
+	// deadline; such a call is only judged if its own context is still alive
+	// after it returned
+	cancelPct int
 }
 
 func (c *c13Caller) scope() string {
@@ -409,12 +413,28 @@ func (c *c13Caller) opValidate(ctx context.Context) {
 		stale = false
 	}
 	sc := c.scope()
+	short := false
+	if c.cancelPct > 0 && c.rng.Intn(100) < c.cancelPct {
+		short = true
+		var cancel context.CancelFunc
+		ctx, cancel = context.WithTimeout(ctx, time.Duration(10+c.rng.Intn(190))*time.Microsecond)
+		defer cancel()
+	}
 	req0, max0 := c.pd.Requests(), c.pd.MaxIssued()
 	inv := c.seq.Add(1)
 	err := c.o.ValidateReadTS(ctx, ts, stale, &oracle.Option{TxnScope: sc})
 	ret := c.seq.Add(1)
 	maxAfter := c.pd.MaxIssued()
 	req1 := c.pd.Requests()
+	if short {
+		c.r.Count("validate_stress_calls_with_short_deadline", 1)
+		if ctx.Err() != nil {
+			// its own context ended (possibly only after the call had returned:
+			// then a verdict is lost, never invented)
+			c.r.Count("validate_stress_calls_own_ctx_ended", 1)
+			return
+		}
+	}
 	c13JudgeValidate(c.r, ts, name, stale, sc, mustAccept, err, maxAfter, inv, ret, "stress")
 	c.r.Distinct(fmt.Sprintf("val|%s|%v|%s|%v|%v|%v", name, stale, sc, err == nil, req1 > req0, maxAfter > max0))
 }
